@@ -759,6 +759,8 @@ class WellFormed(Monitor):
              'rest': [repr(a) for a in args if not isinstance(a, inspect.Signature)], 'kwargs': kw}
         ctx.evaluated()
         ctx.count('C15.%s' % point)
+        if any(p.annotation is not p.empty for s_ in sig_args for p in s_.parameters.values()):
+            ctx.count('C15.annotated_inputs')
         ins = [bparams(s) for s in sig_args]
         if not ok:
             ctx.count('C15.raised')
